@@ -33,6 +33,9 @@ fn classify<T>(f: impl FnOnce() -> Result<T, String>) -> (Out, String) {
 
 fn cb(_: &GraphColoredVertices, _: &str) {}
 
+/// a valid formula without quantifiers whose tree is taller than every enumerated input
+const TALL: &str = "AX (AX (AX (AX (AX (AX (AX (AX (EF a))))))))";
+
 /// Run every plain string entry point on `s`; returns (entry, outcome, detail).
 fn plain_entries(s: &str, g: &SymbolicAsyncGraph, valid: &str) -> Vec<(&'static str, Out, String)> {
     let mut v = vec![];
@@ -43,6 +46,9 @@ fn plain_entries(s: &str, g: &SymbolicAsyncGraph, valid: &str) -> Vec<(&'static 
     push("model_check_multiple_formulae_dirty", classify(|| mc::model_check_multiple_formulae_dirty(vec![s], g)));
     push("model_check_multiple_formulae[valid,s]", classify(|| mc::model_check_multiple_formulae(vec![valid, s], g)));
     push("model_check_multiple_formulae_dirty[s,valid]", classify(|| mc::model_check_multiple_formulae_dirty(vec![s, valid], g)));
+    // lists in which the other (valid) formula is TALLER than `s` and needs no spare variable set
+    push("model_check_multiple_formulae[tall,s]", classify(|| mc::model_check_multiple_formulae(vec![TALL, s], g)));
+    push("model_check_multiple_formulae_dirty[s,tall]", classify(|| mc::model_check_multiple_formulae_dirty(vec![s, TALL], g)));
     push("model_check_formula_unsafe_ex", classify(|| mc::model_check_formula_unsafe_ex(s, g)));
     push("_model_check_formula", classify(|| mc::_model_check_formula(s, g, &mut cb)));
     push("_model_check_formula_dirty", classify(|| mc::_model_check_formula_dirty(s, g, &mut cb)));
@@ -60,6 +66,8 @@ fn ext_entries(s: &str, g: &SymbolicAsyncGraph, ctx: &Ctx, valid: &str) -> Vec<(
     push("model_check_multiple_extended_formulae_dirty", classify(|| mc::model_check_multiple_extended_formulae_dirty(vec![s], g, ctx)));
     push("model_check_multiple_extended_formulae[valid,s]", classify(|| mc::model_check_multiple_extended_formulae(vec![valid, s], g, ctx)));
     push("model_check_multiple_extended_formulae_dirty[s,valid]", classify(|| mc::model_check_multiple_extended_formulae_dirty(vec![s, valid], g, ctx)));
+    push("model_check_multiple_extended_formulae[tall,s]", classify(|| mc::model_check_multiple_extended_formulae(vec![TALL, s], g, ctx)));
+    push("model_check_multiple_extended_formulae_dirty[s,tall]", classify(|| mc::model_check_multiple_extended_formulae_dirty(vec![s, TALL], g, ctx)));
     push("_model_check_extended_formula", classify(|| mc::_model_check_extended_formula(s, g, ctx, &mut cb)));
     push("_model_check_extended_formula_dirty", classify(|| mc::_model_check_extended_formula_dirty(s, g, ctx, &mut cb)));
     push("_model_check_multiple_extended_formulae", classify(|| mc::_model_check_multiple_extended_formulae(vec![s], g, ctx, &mut cb)));
@@ -188,7 +196,7 @@ fn run_strings(rep: &mut Report, env: &Env, alphabet: &[&str], len: usize, sep: 
             let parses = rp::parse_str(&s, true).is_ok();
             let ks: Vec<usize> = if parses { vec![0, 1, 2, 3] } else { vec![0, 2] };
             acc.n += 1;
-            acc.calls += ks.len() as u64 * 21;
+            acc.calls += ks.len() as u64 * 25;
             if parses {
                 acc.valid += 1;
             }
@@ -266,7 +274,7 @@ pub fn run(tier: &str) -> Result<Report, String> {
             .collect();
         for (n, v) in res {
             subsets_total += n;
-            rep.evaluations += n * 3 * 21;
+            rep.evaluations += n * 3 * 25;
             if let Some(v) = v {
                 if rep.violations.len() < 200 {
                     rep.violations.push(v);
@@ -297,7 +305,7 @@ pub fn run(tier: &str) -> Result<Report, String> {
                     let ok = t.scope_ok(&mut vec![], &env.props);
                     let ks: Vec<usize> = if ok { vec![0, 1, 2, 3] } else { vec![0, 2] };
                     acc.n += 1;
-                    acc.calls += ks.len() as u64 * 21;
+                    acc.calls += ks.len() as u64 * 25;
                     if ok {
                         acc.valid += 1;
                     }
@@ -347,7 +355,7 @@ pub fn run(tier: &str) -> Result<Report, String> {
     deep.push("!{x}: !{xx}: !{xxx}: !{xxxx}: ({x} & {xxxx})".into());
     deep.push("!{x}: !{xx}: !{xxx}: ({x} & {xxx})".into());
     for s in &deep {
-        rep.evaluations += 4 * 21;
+        rep.evaluations += 4 * 25;
         let bad = check_string(&env, s, &[0, 1, 2, 3], &mixed);
         if !bad.is_empty() {
             rep.violations.push(Violation { case: case(&env, s, &[0, 1, 2, 3], &mixed), what: format!("input {:?}: {}", crate::report::truncate(s, 120), bad.join(" | ")), size: s.len() });
@@ -373,7 +381,7 @@ pub fn run(tier: &str) -> Result<Report, String> {
     rep.sample(json!({"input": "!{x}: @{y}: a", "expected": "Err from every entry point (free jump target), for every k"}));
     rep.sample(json!({"input": "3{y} in %d%: ~ {y}", "labels_present": ["p"], "expected": "Err (domain d has no context set)"}));
     rep.sample(json!({"input": "3{y} in %d%: ~ {y}", "labels_present": ["p", "d"], "k": 0, "expected": "Err (needs 1 spare variable set)"}));
-    rep.rule = format!("(a) every sequence of 1..{t} tokens over {TOKENS:?} and every string of 1..{k} symbols over {CHARS:?} through all 21 string entry points (plain, dirty, multiple, extended, unsafe_ex, callback variants, lists [valid,s] / [s,valid]) on graphs with k=0,2 (k=0..3 when the grammar derives the string) spare variable sets; (b) every closed extended formula with <= {m} nodes x every subset of its required labels (sets: mixed / empty / full / colour-disjoint families) x k in {{depth-1, depth, 3}}; (b2) every tree with at most 5 (thorough 7) nodes over the binder-focused alphabet {{a, x, y, AX, &, !, 3, V, @}} printed and given to all 21 entry points (ill-scoped: Err; well-scoped: Ok when k suffices); (c) {} deep inputs (nesting 10 and 40). Oracle: Ok iff reference parser accepts, scope rules hold, all labels present and k >= nesting depth; Err otherwise; a panic is always a violation. distinct_nontrivial = number of enumerated strings the grammar derives", deep.len());
+    rep.rule = format!("(a) every sequence of 1..{t} tokens over {TOKENS:?} and every string of 1..{k} symbols over {CHARS:?} through all 25 string entry points (plain, dirty, multiple, extended, unsafe_ex, callback variants, lists [valid,s] / [s,valid] with a short and with a tall valid formula) on graphs with k=0,2 (k=0..3 when the grammar derives the string) spare variable sets; (b) every closed extended formula with <= {m} nodes x every subset of its required labels (sets: mixed / empty / full / colour-disjoint families) x k in {{depth-1, depth, 3}}; (b2) every tree with at most 5 (thorough 7) nodes over the binder-focused alphabet {{a, x, y, AX, &, !, 3, V, @}} printed and given to all 25 entry points (ill-scoped: Err; well-scoped: Ok when k suffices); (c) {} deep inputs (nesting 10 and 40). Oracle: Ok iff reference parser accepts, scope rules hold, all labels present and k >= nesting depth; Err otherwise; a panic is always a violation. distinct_nontrivial = number of enumerated strings the grammar derives", deep.len());
     rep.assumptions.push("context sets satisfy the documented precondition (inside the unit set, independent of auxiliary variables)".into());
     Ok(rep)
 }
